@@ -100,11 +100,21 @@ def main():
     chk.cov['evaluations'] = paths
     chk.cov['distinct_nontrivial'] = failing
     chk.cov['exhaustive'] = True
+    from . import extras7
+    for fn_ in ('nested_failing_load',):
+        for pr in getattr(extras7, fn_)()[:2]:
+            chk.violation(pr, {'extras7': fn_})
+        chk.cov['traces_validated_against_impl'] += 1
+    chk.cov.setdefault('bounds', {})['concrete_supplements_round7'] = ['nested_failing_load']
     return chk.finish('one path per fault point per case and repository mode, plus self-failing loads; distinct = '
                       'failing loads')
 
 
 def replay(data):
+    if isinstance(data, dict) and data.get('extras7'):
+        from . import extras7
+        pr = getattr(extras7, data['extras7'])()
+        return bool(pr), pr[:2]
     item = data['item']
     if data.get('fired'):
         obs = LC.replay_fault(item[0], item[1], item[2], data['fired'][0], item[5])
